@@ -1,5 +1,6 @@
 import MM.Engine.Basic
 import MM.Model.C32
+import MM.Gen.C32
 
 /-!
   Line-protocol oracle for C32 (protocol: harness/main/eng_c32.go).  `rclose c` is observed by the
@@ -11,7 +12,13 @@ open MM MM.C32
 
 def connTok (t : String) : Option Nat := t.toNat?
 
-def stepLine (s : S) (line : String) : S × String :=
+/-- Model state plus the script's "bytes in flight" bookkeeping: (connection, frames written while
+    its reads are stalled). -/
+structure ES where
+  s : S := {}
+  stalled : List (Nat × Nat) := []
+
+def stepS (s : S) (line : String) : S × String :=
   let lab (l : Label) : S × String := step true s l
   match tokens line with
   | ["reset"] => ({}, "ok")
@@ -35,7 +42,12 @@ def stepLine (s : S) (line : String) : S × String :=
     | some c => lab (.frame c)
     | none => (s, "bad-op")
   | ["ktimeout", c] => match connTok c with
-    | some c => lab (.ktimeout c)
+    | some c =>
+      -- what an unanswered keepalive leads to is a measured fact about the code (MM/Gen/C32.lean)
+      if MM.Gen.C32.keepaliveTimeoutFires then lab (.ktimeout c)
+      else
+        let k := s.conn c
+        if k.started && !k.closed && !k.readErr then (s, "no-teardown") else (s, "notopen")
     | none => (s, "bad-op")
   | ["rclose", c] => match connTok c with
     | some c => lab (.ktimeout c)
@@ -63,6 +75,42 @@ def stepLine (s : S) (line : String) : S × String :=
     | some p => (s, match s.peers p with | some c => s!"peer c{c}" | none => "peer -")
     | none => (s, "bad-op")
   | _ => (s, "bad-op")
+
+def stepLine (e : ES) (line : String) : ES × String :=
+  match tokens line with
+  | ["reset"] => ({}, "ok")
+  | ["stall", c] => match connTok c with
+    | some c =>
+      let k := e.s.conn c
+      if k.started && !k.closed && !k.readErr then
+        ({ e with stalled := (c, 0) :: e.stalled.filter (fun x => x.1 != c) }, "ok")
+      else (e, "notopen")
+    | none => (e, "bad-op")
+  | ["send", c] => match connTok c with
+    | some c => match e.stalled.find? (fun x => x.1 == c) with
+      | some x =>
+        let k := e.s.conn c
+        if !k.closed && !k.readErr then
+          ({ e with stalled := (c, x.2 + 1) :: e.stalled.filter (fun y => y.1 != c) }, "sent")
+        else (e, "dropped")
+      | none => (e, "notstalled")
+    | none => (e, "bad-op")
+  | ["unstall", c] => match connTok c with
+    | some c => match e.stalled.find? (fun x => x.1 == c) with
+      | some x =>
+        let e := { e with stalled := e.stalled.filter (fun y => y.1 != c) }
+        let k := e.s.conn c
+        if !k.closed then
+          ({ e with s := e.s.setConn c { k with delivered := k.delivered + x.2 } }, "resumed")
+        else if x.2 > 0 then
+          let (s', o) := step true e.s (.readSilent c)
+          ({ e with s := s' }, o)
+        else (e, "resumed")
+      | none => (e, "notstalled")
+    | none => (e, "bad-op")
+  | _ =>
+    let (s', o) := stepS e.s line
+    ({ e with s := s' }, o)
 
 /-! ### Executable statement of C32 on the implementation's own answers
 
@@ -171,6 +219,6 @@ def specLine (s : SpecSt) (line : String) : SpecSt × String :=
 def main (args : List String) : IO Unit :=
   match args with
   | ["spec"] => runLines ({} : SpecSt) specLine
-  | _ => runLines ({} : S) stepLine
+  | _ => runLines ({} : ES) stepLine
 
 end MM.Engine.C32
